@@ -29,6 +29,11 @@ pub struct NameVolume {
     /// 1 or 2 (two scratch directories). Switching away and back must not bring old names back.
     #[serde(default)]
     pub tmp_switch: Vec<(usize, u8)>,
+    /// (step, remove): at that step the thread first runs the crate's public self-test helper
+    /// `serialize::test(value, part, size, remove)`, which takes a name of its own; with `remove == false` it hands the
+    /// path of the file it kept back to the caller, and that path is a name like any other.
+    #[serde(default)]
+    pub test_calls: Vec<(usize, bool)>,
 }
 
 /// Restores TMPDIR when the scenario ends, whichever way it ends.
@@ -60,8 +65,33 @@ thread_local! {
 }
 
 enum Cmd {
-    Go(usize),
+    /// `k` calls; before them, optionally, one `serialize::test(.., remove)`.
+    Go(usize, Option<bool>),
     Exit,
+}
+
+/// What a step hands back: the names themselves, or (for histories of millions of calls) two independent 64-bit
+/// digests per name, with the containment of the name part checked on the spot.
+enum Res {
+    Names(Vec<String>),
+    Digests { d: Vec<(u64, u64)>, missing_part: Option<String> },
+}
+
+fn contains_part(name: &str, part: &str) -> bool {
+    // A name part with a directory separator can only be looked for in the whole path.
+    if part.contains('/') { return name.contains(part); }
+    std::path::Path::new(name).file_name().map(|f| f.to_string_lossy().contains(part)).unwrap_or(false)
+}
+
+fn digest(name: &str) -> (u64, u64) {
+    let mut a = 0xcbf2_9ce4_8422_2325u64;
+    let mut b = 0x9E37_79B9_7F4A_7C15u64;
+    for byte in name.as_bytes() { a = (a ^ *byte as u64).wrapping_mul(0x0000_0100_0000_01B3); b = (b.rotate_left(5) ^ *byte as u64).wrapping_mul(0xFF51_AFD7_ED55_8CCD); }
+    (a, b)
+}
+
+fn tame(part: &str) -> bool {
+    !part.is_empty() && part.len() < 100 && part.chars().all(|c| c.is_ascii_alphanumeric() || "._-{}<>:?* ".contains(c))
 }
 
 impl NameVolume {
@@ -104,7 +134,21 @@ impl NameVolume {
             let mut at = 0usize;
             for d in pattern { at = rng.range_usize(at + 1, schedule.len().max(at + 2)); tmp_switch.push((at, *d)); }
         }
-        NameVolume { parts, schedule, exit_calls, tmp_switch }
+        // One history in six also runs the crate's self-test helper from some steps, keeping or removing its file.
+        let mut test_calls = Vec::new();
+        if rng.chance(1, 6) { for _ in 0..rng.range_usize(1, 3) { test_calls.push((rng.below_usize(schedule.len()), rng.chance(1, 3))); } }
+        NameVolume { parts, schedule, exit_calls, tmp_switch, test_calls }
+    }
+
+    /// More than 2^24 names in one process (a counter field of 24 bits would wrap): a handful of threads taking turns.
+    pub fn generate_wrap(rng: &mut Rng) -> NameVolume {
+        let threads = rng.range_usize(1, 4);
+        let part = rng.pick(&["wrap", "a", "x_1"]).to_string();
+        let total = (1usize << 24) + rng.range_usize(2, 5000);
+        let mut schedule = vec![(0usize, 1usize)];
+        let mut left = total - 1;
+        while left > 0 { let k = rng.range_usize(1, 4_000_000).min(left); schedule.push((rng.below_usize(threads), k)); left -= k; }
+        NameVolume { parts: vec![part; threads], schedule, exit_calls: Vec::new(), tmp_switch: Vec::new(), test_calls: Vec::new() }
     }
 
     /// 1030-2100 threads that each request one to three names with the same name part; mostly one after another,
@@ -120,7 +164,7 @@ impl NameVolume {
             if t < threads { schedule.push((t, 1)); }
             if t >= overlap { schedule.push((t - overlap, rng.range_usize(1, 2))); }
         }
-        NameVolume { parts: vec![part; threads], schedule, exit_calls: Vec::new(), tmp_switch: Vec::new() }
+        NameVolume { parts: vec![part; threads], schedule, exit_calls: Vec::new(), tmp_switch: Vec::new(), test_calls: Vec::new() }
     }
 
     pub fn run(&self, prop: &str) -> Outcome {
@@ -130,8 +174,12 @@ impl NameVolume {
         let tmp0 = std::env::temp_dir();
         let _restore = TmpDirGuard(std::env::var_os("TMPDIR"), !self.tmp_switch.is_empty());
         let last_step: Vec<Option<usize>> = (0..n).map(|t| self.schedule.iter().rposition(|(u, _)| *u == t)).collect();
-        let mut workers: Vec<Option<(mpsc::Sender<Cmd>, mpsc::Receiver<Vec<String>>, std::thread::JoinHandle<()>)>> = (0..n).map(|_| None).collect();
+        let mut workers: Vec<Option<(mpsc::Sender<Cmd>, mpsc::Receiver<Res>, std::thread::JoinHandle<()>)>> = (0..n).map(|_| None).collect();
         let mut all: Vec<(usize, String)> = Vec::new();
+        let total_calls: usize = self.schedule.iter().map(|(_, k)| *k).sum();
+        let light = total_calls > 3_000_000;
+        let mut digests: Vec<(u64, u64)> = Vec::new();
+        let mut kept_files: Vec<String> = Vec::new();
         let exit_sinks: Vec<std::sync::Arc<std::sync::Mutex<Vec<String>>>> = (0..n).map(|_| std::sync::Arc::new(std::sync::Mutex::new(Vec::new()))).collect();
         let mut alive_max = 0usize;
         let mut late_start = false;
@@ -147,7 +195,7 @@ impl NameVolume {
             if workers[*t].is_none() {
                 if i > 0 && workers.iter().any(|w| w.is_some()) { late_start = true; }
                 let (cmd_tx, cmd_rx) = mpsc::channel::<Cmd>();
-                let (res_tx, res_rx) = mpsc::channel::<Vec<String>>();
+                let (res_tx, res_rx) = mpsc::channel::<Res>();
                 let part = self.parts[*t].replace("<TMP>", &tmp0.to_string_lossy());
                 let (exit_k, guard_first) = self.exit_calls.get(*t).cloned().unwrap_or((0, false));
                 let sink = exit_sinks[*t].clone();
@@ -156,11 +204,30 @@ impl NameVolume {
                     if guard_first { install(&part); }
                     while let Ok(cmd) = cmd_rx.recv() {
                         match cmd {
-                            Cmd::Go(k) => {
-                                let mut names = Vec::with_capacity(k);
-                                for _ in 0..k { names.push(simple_sds::serialize::temp_file_name(&part).to_string_lossy().into_owned()); crate::core::progress(); }
+                            Cmd::Go(k, test) => {
+                                let mut names = Vec::with_capacity(if light { 1 } else { k + 1 });
+                                if let Some(remove) = test {
+                                    // The helper panics when its own checks fail; that would be a finding of another property.
+                                    let value: Vec<u64> = vec![1, 2, 3];
+                                    if let Ok(Some(kept)) = catch(|| simple_sds::serialize::test(&value, &part, Some(4), remove)) { names.push(kept.to_string_lossy().into_owned()); }
+                                }
+                                let res = if light {
+                                    let mut d = Vec::with_capacity(k + names.len());
+                                    let mut missing_part = None;
+                                    for name in names.iter() { d.push(digest(name)); }
+                                    for _ in 0..k {
+                                        let name = simple_sds::serialize::temp_file_name(&part).to_string_lossy().into_owned();
+                                        if missing_part.is_none() && !contains_part(&name, &part) { missing_part = Some(name.clone()); }
+                                        d.push(digest(&name));
+                                        crate::core::progress();
+                                    }
+                                    Res::Digests { d, missing_part }
+                                } else {
+                                    for _ in 0..k { names.push(simple_sds::serialize::temp_file_name(&part).to_string_lossy().into_owned()); crate::core::progress(); }
+                                    Res::Names(names)
+                                };
                                 if !guard_first { install(&part); }
-                                if res_tx.send(names).is_err() { break; }
+                                if res_tx.send(res).is_err() { break; }
                             },
                             Cmd::Exit => break,
                         }
@@ -171,10 +238,19 @@ impl NameVolume {
             alive_max = alive_max.max(workers.iter().filter(|w| w.is_some()).count());
             let done = {
                 let w = workers[*t].as_ref().unwrap();
-                if w.0.send(Cmd::Go(*k)).is_err() { None } else { w.1.recv().ok() }
+                let test = self.test_calls.iter().find(|(at, _)| *at == i).map(|(_, r)| *r).filter(|_| tame(&self.parts[*t]));
+                if test.is_some() { out.stats.probe("serialize::test run between the calls"); }
+                if w.0.send(Cmd::Go(*k, test)).is_err() { None } else { w.1.recv().ok().map(|r| (r, test)) }
             };
             match done {
-                Some(names) => { for name in names { all.push((*t, name)); } },
+                Some((Res::Names(names), test)) => {
+                    if test == Some(false) && names.len() == *k + 1 { kept_files.push(names[0].clone()); }
+                    for name in names { all.push((*t, name)); }
+                },
+                Some((Res::Digests { d, missing_part }, _)) => {
+                    if let Some(name) = missing_part { return out.fail(Violation::new(prop, "name-part", "temp_file_name", format!("{:?} does not contain the caller's name part {:?}", name, self.parts[*t]))); }
+                    digests.extend(d);
+                },
                 None => {
                     return out.fail(Violation::new(prop, "name-panic", "temp_file_name", format!("the thread of step {} (thread {}, {} calls) died", i, t, k)));
                 },
@@ -195,12 +271,20 @@ impl NameVolume {
                 for name in late { all.push((*t, name)); }
             }
         }
+        for f in kept_files.iter() { let _ = std::fs::remove_file(f); }
+        if light {
+            for (_, name) in all.iter() { digests.push(digest(name)); }
+            let count = digests.len();
+            digests.sort_unstable();
+            if let Some(w) = digests.windows(2).find(|w| w[0] == w[1]) {
+                return out.fail(Violation::new(prop, "duplicate-volume", "temp_file_name", format!("among {} names of one process two have the same 128-bit digest {:016x}{:016x}: the same path was returned twice", count, w[0].0, w[0].1)));
+            }
+            out.stats.probe_if(count > 1 << 24, "more than 2^24 names in one process");
+        }
         let mut seen: BTreeSet<&str> = BTreeSet::new();
         for (t, name) in all.iter() {
-            // A name part with a directory separator can only be looked for in the whole path.
             let part = self.parts[*t].replace("<TMP>", &tmp0.to_string_lossy());
-            let file = std::path::Path::new(name).file_name().map(|f| f.to_string_lossy().into_owned()).unwrap_or_default();
-            let found = if part.contains('/') { name.contains(part.as_str()) } else { file.contains(part.as_str()) };
+            let found = contains_part(name, &part);
             if !found {
                 return out.fail(Violation::new(prop, "name-part", "temp_file_name", format!("{:?} does not contain the caller's name part {:?}", name, part)));
             }
@@ -208,7 +292,7 @@ impl NameVolume {
                 return out.fail(Violation::new(prop, "duplicate-volume", "temp_file_name", format!("the path {:?} was returned twice ({} threads, schedule of {} steps)", name, n, self.schedule.len())));
             }
         }
-        out.stats.steps = all.len() as u64;
+        out.stats.steps = (all.len() + digests.len()) as u64;
         let quota = |t: usize| -> usize { self.schedule.iter().filter(|(u, _)| *u == t).map(|(_, k)| *k).sum() };
         let classes: Vec<u8> = (0..n).map(|t| { let c = quota(t); if c > (1 << 20) { 4 } else if c > 65_536 { 3 } else if c > 4096 { 2 } else if c > 16 { 1 } else { 0 } }).collect();
         out.stats.sigs.insert(crate::rng::fnv(format!("{:?}|{}|{}|{}", classes, self.schedule.len().min(20), late_start, exit_while_others_alive).as_bytes()));
@@ -236,6 +320,7 @@ impl NameVolume {
         let n = self.parts.len();
         if n > 2 { for t in 1..n { let mut s = self.clone(); for step in s.schedule.iter_mut() { if step.0 == t { step.0 = 0; } else if step.0 > t { step.0 -= 1; } } s.parts.remove(t); if t < s.exit_calls.len() { s.exit_calls.remove(t); } out.push(s); } }
         for i in 0..self.parts.len() { if self.parts[i] != "a" { let mut s = self.clone(); s.parts[i] = "a".into(); out.push(s); } }
+        if !self.test_calls.is_empty() { let mut s = self.clone(); s.test_calls.clear(); out.push(s); for i in 0..self.test_calls.len() { let mut s = self.clone(); s.test_calls.remove(i); out.push(s); } }
         if !self.tmp_switch.is_empty() { let mut s = self.clone(); s.tmp_switch.clear(); out.push(s); for i in 0..self.tmp_switch.len() { let mut s = self.clone(); s.tmp_switch.remove(i); out.push(s); } }
         for i in 0..self.exit_calls.len() { if self.exit_calls[i].0 > 0 { let mut s = self.clone(); s.exit_calls[i].0 = 0; out.push(s); if self.exit_calls[i].0 > 1 { let mut s = self.clone(); s.exit_calls[i].0 = 1; out.push(s); } } }
         out
